@@ -152,7 +152,9 @@ def main(ctx, replay=None):
         datasets, systems = {}, {"A": "hexagonal", "B": None, "C": "hexagonal"}
         # (output sections may hold dictionaries - keyword with a unit or file name - next to plain keywords)
         dsA.output = {"pressure_base": ["cij", {"keyword": "bm_VRH", "fname": "bulk_hill.dat"}, "G_VRH", "v", {"keyword": "vs", "unit": "m/s"}, "vp"],
-                      "volume_base": ["p", {"keyword": "cij_t", "unit": "kbar"}]}
+                      "volume_base": ["p", {"keyword": "cij_t", "unit": "kbar"}, {"keyword": "bm_VRH", "fname": "bulk_hill.dat"}]}
+        # (the last entry names the file the pressure base has already written: the bases are written in the documented order, pressure
+        #  base first, so what the file holds in the end does not depend on anything else - the hash seed, say)
         dsC.output = dsA.output
         for c, ds in (("A", dsA), ("B", dsB), ("C", dsC)):
             d = wd.sub(f"data{c}")
